@@ -44,6 +44,12 @@ def run_instance(rt, boxes, hitsv, qn, a, b, stride, phase):
             break
         nq += 1
         want = {i + 1 for i in range(n) if (m >> i) & 1}
+        res = set(got)
+        try:
+            got.clear()                  # the result belongs to the caller: emptying it must not change what the index answers later
+        except Exception:  # pylint: disable=broad-except
+            pass
+        got = res
         if set(got) != want:
             bad.append(("query.missed" if want - set(got) else "query.extra", sorted(want), sorted(got), list(q)))
             if len(bad) > 3:
@@ -93,7 +99,12 @@ def record(rt, rng, ncoll, nq):
                 continue
             try:
                 with vlib.time_limit(5.0):
-                    res = sorted(idx.intersection(tuple(cf(v) for v in q)))
+                    raw = idx.intersection(tuple(cf(v) for v in q))
+                res = sorted(raw)
+                try:
+                    raw.clear()          # see run_instance
+                except Exception:  # pylint: disable=broad-except
+                    pass
                 evs.append({"ev": "q", "q": q, "res": res, "raised": False})
             except (Exception, vlib.CallTimeout):  # pylint: disable=broad-except
                 evs.append({"ev": "q", "q": q, "res": [], "raised": True})
